@@ -113,7 +113,7 @@ def run(ctx):
     if not g:
         raise tlc.TlcFailure("C19Gen wrote no cases:\n" + gen["out"][-2000:])
     ctx.log("cases generated by TLC (field lists, definition sets; families A message shapes, B field shapes, C texts, "
-            "D multi-definition files):", g[0][2:], "in %.1fs" % gen["wall_s"])
+            "D multi-definition files, E number bases):", g[0][2:], "in %.1fs" % gen["wall_s"])
     exe = build.build("c19_csv", ["c19_csv.cpp"], ["ebus", "utils"])
     out = recs.run_harness(ctx, exe, [cases, wd, ctx.tier])
     hstat = json.loads(out.strip().splitlines()[-1])
@@ -173,7 +173,7 @@ def run(ctx):
                 "construction (distinct line; distinct (definition set, writing, generation)); non-trivial = lines that "
                 "contain a separator or a quote; loads/dumps of definition sets that have a field, a chained id or a quoted text",
         "samples": samples, "exhaustive": True, "families": fam_counts, "tlc_states": states,
-        "definition_sets": dict(zip(["A_message_shapes", "B_field_shapes", "C_texts", "D_files"], g[0][4:8])),
+        "definition_sets": dict(zip(["A_message_shapes", "B_field_shapes", "C_texts", "D_files", "E_number_bases"], g[0][4:9])),
         "tlc_lemmas": ["SplitLine(Join(QuoteForms(fields))) = fields", "SplitLine(DumpLine(def)) = Cols(def)",
                        "every enumerated definition is valid"],
     }
@@ -181,7 +181,7 @@ def run(ctx):
         "TLC evaluates the TLA+ definitions correctly; the harness logs the attributes the objects hold",
         "outer blanks of a CSV field are insignificant (fields are compared after trimming); a line of only empty fields is "
         "a blank line; units and comments of definitions are free of outer blanks",
-        "definitions use 12 representative data types, value names over letters and inner blanks, identifiers over letters; "
+        "definitions use 12 representative data types (+ STR:10, HEX:16, IGN:12 for the number-base family), value names over letters and inner blanks, identifiers over letters; "
         "no access level, range, condition, template or default line",
         "dump lines are read with the specification's reader and compared by column (hex columns case-insensitively), "
         "not byte by byte with the specification's canonical line",
